@@ -1,5 +1,5 @@
 (* Lemmas about model/Semver.v (C20). *)
-From Coq Require Import String ZArith Lia ZifyN ZifyBool.
+From Coq Require Import String Ascii List Bool ZArith Lia ZifyN ZifyBool.
 From LP Require Import Semver.
 Local Open Scope N_scope.
 
@@ -40,4 +40,103 @@ Proof. intros [[a1 a2] a3] [[b1 b2] b3]. unfold ver_leb, ver_ltb, ver_eqb. lia. 
 Lemma semver_not_string_order :
   parse_version "3.9.0" = Some (3, 9, 0) /\ parse_version "3.16.0" = Some (3, 16, 0) /\
   ver_ltb (3, 9, 0) (3, 16, 0) = true /\ str_ltb "3.16.0" "3.9.0" = true /\ str_ltb "3.9.0" "3.16.0" = false.
+Proof. repeat split; vm_compute; reflexivity. Qed.
+
+(* ---- shape of what `parse_version` accepts (added round 8) ---- *)
+Definition is_digit (c : ascii) : bool :=
+  match digit_of c with Some _ => true | None => false end.
+
+Fixpoint all_chars (p : ascii -> bool) (s : string) : bool :=
+  match s with
+  | EmptyString => true
+  | String c r => p c && all_chars p r
+  end.
+
+Lemma digits_val_all_digits : forall s acc v,
+  digits_val s acc = Some v -> all_chars is_digit s = true.
+Proof.
+  induction s as [|c r IH]; intros acc v H; cbn [all_chars]; [reflexivity|].
+  cbn [digits_val] in H.
+  destruct (digit_of c) as [d|] eqn:Hd; [|discriminate].
+  rewrite (IH _ _ H). unfold is_digit. rewrite Hd. reflexivity.
+Qed.
+
+Lemma parse_num_all_digits : forall s v, parse_num s = Some v -> all_chars is_digit s = true.
+Proof.
+  intros s v H. unfold parse_num in H. destruct s as [|c r]; [discriminate|].
+  destruct ((N_of_ascii c =? 48) && negb match r with EmptyString => true | _ => false end); [discriminate|].
+  destruct (digits_val (String c r) 0) as [w|] eqn:Hw; [|discriminate].
+  exact (digits_val_all_digits _ _ _ Hw).
+Qed.
+
+Lemma parse_num_le_u64 : forall s v, parse_num s = Some v -> v <= U64_MAX.
+Proof.
+  intros s v H. unfold parse_num in H. destruct s as [|c r]; [discriminate|].
+  destruct ((N_of_ascii c =? 48) && negb match r with EmptyString => true | _ => false end); [discriminate|].
+  destruct (digits_val (String c r) 0) as [w|]; [|discriminate].
+  destruct (w <=? U64_MAX) eqn:Hle; [|discriminate].
+  inversion H; subst. apply N.leb_le. exact Hle.
+Qed.
+
+Lemma parse_num_empty : parse_num EmptyString = None.
+Proof. reflexivity. Qed.
+
+Lemma parse_num_leading_zero : forall c r,
+  parse_num (String "0"%char (String c r)) = None.
+Proof. intros c r. reflexivity. Qed.
+
+Lemma split_dot_all_chars : forall p s,
+  forallb (all_chars p) (split_dot s) = true ->
+  all_chars (fun c => is_dot c || p c) s = true.
+Proof.
+  intros p. induction s as [|c r IH]; intro H; cbn [all_chars]; [reflexivity|].
+  cbn [split_dot] in H. destruct (is_dot c) eqn:Hdot.
+  - cbn [forallb all_chars] in H. cbn [orb andb]. apply IH. exact H.
+  - destruct (split_dot r) as [|h t] eqn:Hs.
+    + cbn [forallb all_chars] in H. apply andb_prop in H as [H _].
+      apply andb_prop in H as [Hp _]. rewrite Hp. cbn [orb andb]. apply IH. reflexivity.
+    + cbn [forallb all_chars] in H. apply andb_prop in H as [H Ht].
+      apply andb_prop in H as [Hp Hh]. rewrite Hp. cbn [orb andb]. apply IH.
+      cbn [forallb]. rewrite Hh, Ht. reflexivity.
+Qed.
+
+(* an accepted version string has exactly three dot-separated parts, consists of
+   digits and dots only (so every "-rc.1" / "+build" spelling is rejected by the
+   model: the stated bound of Semver.v is a theorem, not a convention), and each
+   number fits u64 *)
+Lemma parse_version_shape : forall s x y z,
+  parse_version s = Some (x, y, z) ->
+  length (split_dot s) = 3%nat /\
+  all_chars (fun c => is_dot c || is_digit c) s = true /\
+  x <= U64_MAX /\ y <= U64_MAX /\ z <= U64_MAX.
+Proof.
+  intros s x y z H. unfold parse_version in H.
+  destruct (split_dot s) as [|a [|b [|c [|d l]]]] eqn:Hs; try discriminate.
+  destruct (parse_num a) as [x'|] eqn:Ha; [|discriminate].
+  destruct (parse_num b) as [y'|] eqn:Hb; [|discriminate].
+  destruct (parse_num c) as [z'|] eqn:Hc; [|discriminate].
+  inversion H; subst. split; [reflexivity|]. split.
+  - apply split_dot_all_chars. rewrite Hs. cbn [forallb].
+    rewrite (parse_num_all_digits _ _ Ha), (parse_num_all_digits _ _ Hb), (parse_num_all_digits _ _ Hc).
+    reflexivity.
+  - repeat split; eapply parse_num_le_u64; eassumption.
+Qed.
+
+Lemma parse_version_rejects_other_chars : forall s c,
+  is_dot c = false -> is_digit c = false ->
+  (exists pre post, s = (pre ++ String c post)%string) -> parse_version s = None.
+Proof.
+  intros s c Hd Hg [pre [post ->]].
+  destruct (parse_version (pre ++ String c post)) as [[[x y] z]|] eqn:H; [|reflexivity].
+  apply parse_version_shape in H as [_ [H _]]. exfalso.
+  induction pre as [|p pre IH]; cbn [append all_chars] in H.
+  - rewrite Hd, Hg in H. discriminate.
+  - apply andb_prop in H as [_ H]. exact (IH H).
+Qed.
+
+Example parse_version_prerelease_rejected :
+  parse_version "3.9.0-rc.1" = None /\ parse_version "3.9.0+build" = None /\
+  parse_version "03.9.0" = None /\ parse_version "3.9" = None /\ parse_version "3.9.0.1" = None /\
+  parse_version "18446744073709551615.0.0" = Some (U64_MAX, 0, 0) /\
+  parse_version "18446744073709551616.0.0" = None.
 Proof. repeat split; vm_compute; reflexivity. Qed.
